@@ -376,6 +376,8 @@ def explore_job(jobspec, deadline):
     digests = []
     viols, per_class = [], collections.Counter()
     over, sample = [], None
+    # which case of the job is written out as a sample (spread over forms)
+    sample_at = (job[0] * 211 + 17 * len(job[2] or '') + 5) % 1500
     n_target = 0
     for form, url, answer in urls_of_job(job, tier):
         exp, direct, found = eval_case(c, url, answer, st)
@@ -388,7 +390,7 @@ def explore_job(jobspec, deadline):
                                            digest_size=8).digest())
         st['cases'] += 1
         st['calls'] += len(SITES)
-        if sample is None and exp['verdict'] == M.REFUSE and form != 'special':
+        if sample is None and st['cases'] > sample_at and form != 'special':
             sample = {'config': c.doc(), 'url': url, 'form': form,
                       'resolver_answer': akey(answer),
                       'reference': {k2: exp[k2] for k2 in
@@ -534,7 +536,14 @@ def main(tier):
     n_digest = 0
     over = []
     allv = []
-    order = sorted(range(len(jobs)), key=lambda i: repr(jobs[i][1]))
+    sampled_cfg = set()
+    def _pos(i):
+        ci, sch, usr = jobs[i][1]
+        if sch is None:
+            return (ci, -1, -1)
+        return (ci, M.SCHEMES[tier].index(sch), M.USERINFO[tier].index(usr))
+
+    order = sorted(range(len(jobs)), key=_pos)
     for i in order:
         r = res[i]
         if r is None or r.get('skipped') or r.get('error'):
@@ -550,8 +559,11 @@ def main(tier):
         d = r['digests']
         n_digest += len(d) // 8
         digests.update(d[j:j + 8] for j in range(0, len(d), 8))
-        if r['sample'] and jobs[i][1][1] in ('http://', 'https://'):
-            rep.sample(r['sample'], limit=6)
+        if (r['sample'] and jobs[i][1][1] in ('http://', 'https://')
+                and jobs[i][1][2] in ('', 'a@b@')
+                and jobs[i][1][0] not in sampled_cfg):
+            sampled_cfg.add(jobs[i][1][0])
+            rep.sample(r['sample'], limit=8)
         over.extend(r['over'])
         allv.extend(r['violations'])
     # one written-out violation of every class first (only a handful are
@@ -610,6 +622,9 @@ def main(tier):
         'cross_job_distinctness_measured': cross_job_distinct,
         'violating_cases_by_sites_kind_class': viol_counts,
         'violating_cases_total': sum(viol_counts.values()),
+        'violating_cases_note': 'violating_cases counts the written-out '
+        'violations (at most %d per job and class); violating_cases_total '
+        'counts every violating case' % DOCS_PER_CLASS,
         'over_refusals_informational': {'count': total['over_refused'],
                                         'examples': over[:6]},
         'reference_vs_platform_parser': {'hosts': n_plat,
